@@ -648,6 +648,8 @@ func (db *Database) GetSuggestions(query string, maxSuggestions int) []string {
 	for word := range wordSet {
 		words = append(words, word)
 	}
+	// fixed candidate order: the matcher keeps equally good matches in input order
+	sort.Strings(words)
 
 	// Find fuzzy matches for the query
 	matches := fuzzy.Find(query, words)
